@@ -778,3 +778,39 @@ M("c20-reinit-method", ["C20"], [(PRE, "    @staticmethod\n    def purge() -> No
    "    def reset(self, pattern: str) -> 'Pregex':\n        self.__init__(pattern)\n        return self\n\n\n    @staticmethod\n    def purge() -> None:")], rule="R-WRITEONCE")
 M("c20-lossy-memo-on-classifier", ["C20"], [(PRE, "    @staticmethod\n    def __infer_type(pattern: str) -> tuple[_Type, bool]:\n",
    "    __memo: dict = {}\n\n    @staticmethod\n    def __infer_type(pattern: str) -> tuple[_Type, bool]:\n        key = pattern.lower()\n        if key not in __class__.__memo:\n            __class__.__memo[key] = __class__.__infer_type_uncached(pattern)\n        return __class__.__memo[key]\n\n    @staticmethod\n    def __infer_type_uncached(pattern: str) -> tuple[_Type, bool]:\n")], rule="R-NOSHARED")
+
+# ---------------------------------------------------------------- round 14 (shapes of the seeded/*-j changes)
+M("c02-group-fastpath-before-class-collapse", "C02", [(PRE, """        # Simplify classes by removing extra characters.
+        pattern = _re.sub(""", """        if __is_group(pattern):
+            return _Type.Group, True
+
+        # Simplify classes by removing extra characters.
+        pattern = _re.sub(""")], rule="R-COMPOSE")
+M("c07-eager-neighbour-code-points", "C07", [(CLS, """                    if start_1 <= end_2 and end_1 >= start_2:
+                        if start_1 >= start_2 and end_1 <= end_2:""", """                    if start_1 <= end_2 and end_1 >= start_2:
+                        before, after = chr(ord(start_2) - 1), chr(ord(end_2) + 1)
+                        if start_1 >= start_2 and end_1 <= end_2:""")], rule="R-SETALG")
+M("c20-memo-answers-hash-equal-arguments", "C20", [
+    (ESS, "class Numeral(", "_NUMERALS = {}\n\n\nclass Numeral(", 1),
+    (ESS, """        if not isinstance(base, int):
+            message = "Provided argument \\"base\\" must be an integer."
+            raise _ex.InvalidArgumentTypeException(message)
+        if base < 2 or base > 16:""", """        key = (base, n_min, n_max)
+        hit = _NUMERALS.get(key)
+        if hit is not None:
+            super().__init__(hit, is_extensible)
+            return
+        if not isinstance(base, int):
+            message = "Provided argument \\"base\\" must be an integer."
+            raise _ex.InvalidArgumentTypeException(message)
+        if base < 2 or base > 16:"""),
+    (ESS, """        pre = pre.at_least_at_most(n=n_min, m=n_max)
+        super().__init__(pre, is_extensible)
+
+
+class __Integer""", """        pre = pre.at_least_at_most(n=n_min, m=n_max)
+        _NUMERALS[key] = pre
+        super().__init__(pre, is_extensible)
+
+
+class __Integer""")], rule="R-HISTORY")
